@@ -60,9 +60,19 @@ pub enum Dev {
     /// any byte-level mutation of the conforming payload that makes it a non-canonical encoding
     /// (dirty type word / padding, shifted offsets, altered lengths, ...); the mutated payload is what is approved
     Mutated(super::c10::Mutation),
+    /// the same kind of mutation applied to the nested message only, which is then wrapped in a well-formed envelope
+    NestedMutated(super::c10::Mutation),
+    /// the nested message replaced by a blob of this many bytes (0..69), in a well-formed envelope
+    NestedShort(u8),
+    /// approved under the hub chain, but the delivery names another source chain: 0 the (trusted) origin chain,
+    /// 1 this service's own chain name, 2 the hub name in another letter case
+    DeliveredUnderOtherSourceChain(u8),
 }
 
-const DEVS: [Dev; 23] = [
+const DEVS: [Dev; 26] = [
+    Dev::DeliveredUnderOtherSourceChain(0),
+    Dev::DeliveredUnderOtherSourceChain(1),
+    Dev::DeliveredUnderOtherSourceChain(2),
     Dev::NeverApproved,
     Dev::ApprovedOtherPayload,
     Dev::ApprovedOtherId,
@@ -107,10 +117,12 @@ pub struct Case {
 fn dev() -> impl Strategy<Value = Dev> {
     prop_oneof![
         5 => Just(Dev::None),
-        23 => prop::sample::select(DEVS.to_vec()),
+        26 => prop::sample::select(DEVS.to_vec()),
         1 => (1u8..64).prop_map(Dev::Truncated),
         1 => (1u8..64).prop_map(Dev::Padded),
         8 => super::c10::mutation().prop_map(Dev::Mutated),
+        4 => super::c10::mutation().prop_map(Dev::NestedMutated),
+        1 => (0u8..70).prop_map(Dev::NestedShort),
     ]
 }
 
@@ -147,7 +159,7 @@ impl Property for C04 {
         "C04"
     }
     fn rule(&self) -> &'static str {
-        "proptest single cases: world = gateway + gas service + ITS (current-source token injected natively) with one ITS-deployed token, one registered canonical token with 500 in custody, an executable probe; a trusted-chain history of 0-6 set/remove operations over 3 chains; optionally a prior successful delivery from the same origin; then a conforming delivery (ReceiveFromHub wrapping a mint / a release / a transfer with data / a deploy with or without minter) and at most one deviation from the statement's list (never approved; approved with other payload / id / source address / destination; already executed; approval re-submitted after execution; source chain not the hub (another chain, or the hub's name in another letter case / with a trailing space); source address not the hub address; SendToHub wrapper; raw inner message; inner type 2; origin never trusted / removed again / removed between approval and execution / a trusted name in another letter case or with a trailing space; unknown token; undecodable recipient or minter (garbage, well-formed XDR of a string / number / bytes / vector, truncated address); amount 2^127 / 2^128+a / 2^192+a / 2^255+a; truncated / padded payload; any byte-level mutation - bit flip, dirty type word or padding, shifted offset, altered length - that leaves a non-canonical encoding). Oracle: effects (exact balance / custody / registry delta, gateway status executed, second delivery refused) iff no deviation; otherwise execute fails and the ledger snapshot is identical (approval still approved, not executed). non-trivial = a deviation is present, or the trust history contains a removal; distinct by Debug hash"
+        "proptest single cases: world = gateway + gas service + ITS (current-source token injected natively) with one ITS-deployed token, one registered canonical token with 500 in custody, an executable probe; a trusted-chain history of 0-6 set/remove operations over 3 chains; optionally a prior successful delivery from the same origin; then a conforming delivery (ReceiveFromHub wrapping a mint / a release / a transfer with data / a deploy with or without minter) and at most one deviation from the statement's list (never approved; approved with other payload / id / source address / destination; already executed; approval re-submitted after execution; source chain not the hub (another chain, or the hub's name in another letter case / with a trailing space); source address not the hub address; SendToHub wrapper; raw inner message; inner type 2; origin never trusted / removed again / removed between approval and execution / a trusted name in another letter case or with a trailing space; unknown token; undecodable recipient or minter (garbage, well-formed XDR of a string / number / bytes / vector, truncated address); amount 2^127 / 2^128+a / 2^192+a / 2^255+a; truncated / padded payload; any byte-level mutation - bit flip, dirty type word or padding, shifted offset, altered length - that leaves a non-canonical encoding, applied to the whole payload or to the nested message inside a well-formed envelope; a nested blob of 0..69 bytes; approved under the hub chain but delivered naming the trusted origin chain / the service's own chain / the hub name in another letter case). Oracle: effects (exact balance / custody / registry delta, gateway status executed, second delivery refused) iff no deviation; otherwise execute fails and the ledger snapshot is identical (approval still approved, not executed). non-trivial = a deviation is present, or the trust history contains a removal; distinct by Debug hash"
     }
     fn cases(&self, tier: Tier) -> u64 {
         tier.pick(15000, 200000)
@@ -323,6 +335,20 @@ impl Property for C04 {
         if dev == Dev::InnerUnsupportedType {
             inner_bytes[..32].copy_from_slice(&word_u64(2));
         }
+        match dev {
+            Dev::NestedMutated(m) => super::c10::apply(&mut inner_bytes, &m),
+            Dev::NestedShort(n) => {
+                inner_bytes = seeded_bytes(case.seed, n as usize);
+                if n >= 32 {
+                    inner_bytes[..32].copy_from_slice(&word_u64(case.seed % 2));
+                }
+            }
+            _ => {}
+        }
+        if matches!(dev, Dev::NestedMutated(_) | Dev::NestedShort(_)) && crate::oracle::decode_msg_canonical(&inner_bytes).is_some() {
+            cx.count("mutation_still_canonical_skipped");
+            return Ok(());
+        }
         let mut payload = match dev {
             Dev::OuterSendToHub => AHub::Send { chain: origin_name.as_bytes().to_vec(), inner: inner_bytes.clone() }.encode(),
             Dev::RawInner => inner_bytes.clone(),
@@ -344,7 +370,13 @@ impl Property for C04 {
             }
             _ => {}
         }
+        let hub_other_case = HUB_CHAIN.to_uppercase();
         let source_chain: &str = match dev {
+            Dev::DeliveredUnderOtherSourceChain(k) => match k % 3 {
+                0 => origin,
+                1 => "stellar",
+                _ => &hub_other_case,
+            },
             Dev::SourceChainNotHub => origin,
             Dev::SourceChainCaseOrSpaceVariant(_) => &hub_variant,
             _ => HUB_CHAIN,
@@ -364,6 +396,7 @@ impl Property for C04 {
             Dev::ApprovedOtherId => w.approve_for_its(source_chain, &format!("{}x", mid), source_address, &payload)?,
             Dev::ApprovedOtherSourceAddress => w.approve_for_its(source_chain, &mid, "axelar1someoneelse", &payload)?,
             Dev::ApprovedOtherDestination => w.approve_for(&w.users[1], source_chain, &mid, source_address, &payload)?,
+            Dev::DeliveredUnderOtherSourceChain(_) => w.approve_for_its(HUB_CHAIN, &mid, source_address, &payload)?,
             _ => w.approve_for_its(source_chain, &mid, source_address, &payload)?,
         }
 
